@@ -17,6 +17,10 @@ const (
 	BindingPathParam
 	// BindingQueryParam indicates a variable bound from a route query parameter.
 	BindingQueryParam
+	// BindingRequest indicates one of the request variables every route
+	// receives (query, input, headers, auth). Like the compiler's built-in
+	// symbols, user code may shadow them with a declaration of its own.
+	BindingRequest
 )
 
 // binding stores a variable's value alongside the source of its binding.
